@@ -120,8 +120,20 @@ def run_C02(ctx, rep):
     lib_rules.check_L1(ctx, rep)
     lib_rules.check_L31(ctx, rep)
     lib_rules.check_L13(ctx, rep)
+    lib_rules.check_L8(ctx, rep)        # "never panic for every thread count": the shard amount is admissible under every pool size
     gen_driver.run_gen(ctx, rep, ['G1G3', 'G2G7', 'G5', 'G6', 'G10', 'G12', 'G14', 'G15'], only_par=True, floors={'G1': 100, 'G6': 15, 'G10': 15, 'G4': 4, 'G14': 100, 'G15': 15})
     gen_driver.run_ser_par_twins(ctx, rep)
+
+
+def _g17_verdict(rep):
+    """one finding for one construct of the code generator (G17 instances are per lattice relation)"""
+    bad = [i for i in rep.instances.get('G17', []) if i.endswith('False')]
+    if bad:
+        rep.viol('G17', 'generated update_indices_priv (lattice relations)', 'duplicate-key-rows-not-joined',
+                 'run() re-indexes a lattice relation by filing every stored row under its key, last row wins: a fact pushed into a lattice '
+                 'relation for a key that already has a row is never joined with it - after the re-run the relation holds two rows for the key '
+                 '(the older one with a superseded value), a fresh run on the union of the inputs holds one (%d lattice relations in %d '
+                 'programs; e.g. %s)' % (len(bad), len({i.split('::update_indices_priv')[0] for i in bad}), bad[0].split(':')[0]))
 
 
 def run_C03(ctx, rep):
@@ -130,10 +142,14 @@ def run_C03(ctx, rep):
     # value-keyed indices count as well
     gen_driver.run_gen(ctx, rep, ['G3r'], only_tags=['lat_top'])
     lattice_rules.check_L10(ctx, rep)
+    # "exactly one row for each key" also for rows the caller wrote into the field with equal keys
+    gen_driver.run_gen(ctx, rep, ['G17'], floors={'G17': 30})
+    _g17_verdict(rep)
 
 
 def run_C13(ctx, rep):
-    gen_driver.run_gen(ctx, rep, ['UI', 'G6', 'G5', 'G8', 'G1G3', 'G3r.maint'], floors={'G4.ui': 500, 'G3.ui': 500, 'G6': 15, 'G5': 250, 'G8': 60, 'G1': 300, 'G3r': 100})
+    gen_driver.run_gen(ctx, rep, ['UI', 'G6', 'G5', 'G8', 'G1G3', 'G3r.maint', 'G17'], floors={'G4.ui': 500, 'G3.ui': 500, 'G6': 15, 'G5': 250, 'G8': 60, 'G1': 300, 'G3r': 100, 'G17': 30})
+    _g17_verdict(rep)
 
 
 def run_C14(ctx, rep):
